@@ -214,3 +214,19 @@ lemma("pass2_steps_commute@canary",
       hyps=step_rel("Da", "D0", "ta") + step_rel("Dab", "Da", "tb") + step_rel("Db", "D0", "tb") + step_rel("Dba", "Db", "ta"),
       goal="forall(Name, Name, Name, lambda x, p, k: implies(x in D0, %s == %s))" % (get0("Dab[x][1]", "p", "k"), get0("D0[x][1]", "p", "k")),
       props=["C09"], canary=True, note="false claim (two steps change nothing) under the same hypotheses: must not be provable")
+
+# ---- the (property, kind, cardinality) tuples of one instance: returned as LISTS (they are iterated once per class of the instance) -------
+contract(AFDS + "._infer_direct_3tuple_features", params={"an_instance": Name}, returns=List(F3), self_type=Strat,
+    requires=["an_instance in %s" % ID, "forall(Name, Name, lambda p, k: implies(p in %s[an_instance][1] and k in %s[an_instance][1][p], %s[an_instance][1][p][k] >= 1))" % (ID, ID, ID)],
+    ensures=["forall(Int, lambda j: implies(0 <= j and j < len(result), result[j][0] in %s[an_instance][1] and result[j][1] in %s[an_instance][1][result[j][0]]))" % (ID, ID)],
+    raises=[], modifies=[],
+    loops={k: {"invariant": ["forall(Int, lambda j: implies(0 <= j and j < len(result), result[j][0] in %s[an_instance][1] and result[j][1] in %s[an_instance][1][result[j][0]]))" % (ID, ID)]} for k in (0, 1, 2)},
+    ghost={"__locals__": {"result": List(F3)}}, props=["C01", "C14", "C02", "C03"],
+    note="a LIST of (property, kind, cardinality) taken from the instance's own counters: the caller iterates it once per class of the instance")
+contract(IRFS + "._infer_inverse_3tuple_features", params={"an_instance": Name}, returns=List(F3), self_type=Strat2,
+    requires=["an_instance in %s" % ID2, "forall(Name, Name, lambda p, k: implies(p in %s[an_instance][2] and k in %s[an_instance][2][p], %s[an_instance][2][p][k] >= 1))" % (ID2, ID2, ID2)],
+    ensures=["forall(Int, lambda j: implies(0 <= j and j < len(result), result[j][0] in %s[an_instance][2] and result[j][1] in %s[an_instance][2][result[j][0]]))" % (ID2, ID2)],
+    raises=[], modifies=[],
+    loops={k: {"invariant": ["forall(Int, lambda j: implies(0 <= j and j < len(result), result[j][0] in %s[an_instance][2] and result[j][1] in %s[an_instance][2][result[j][0]]))" % (ID2, ID2)]} for k in (0, 1, 2)},
+    ghost={"__locals__": {"result": List(F3)}}, props=["C01", "C14", "C02", "C03"],
+    note="inverse twin; must stay a list (it is consumed once per class of the instance)")
